@@ -322,7 +322,7 @@ func swapRegion(c *Ctx, rule string) {
 				}(), "every queued packet except NOOP must be re-sent on the new transport; sends "+Term(cs[0].Arg(0))+" under "+strings.Join(GuardTerms(cs[0].Instr), ","))
 				var extra []string
 				for _, g := range GuardTerms(cs[0].Instr) {
-					if strings.Contains(g, "Type") || strings.Contains(g, "rangeindex") {
+					if strings.Contains(g, "Type") || strings.Contains(g, "idx<") {
 						continue
 					}
 					extra = append(extra, g)
